@@ -716,15 +716,26 @@ class TransferManager(BaseManager):
         # now. Hold the lock until the file has been created: otherwise another
         # download that starts in the meantime could be given the same path
         async with self._download_path_lock:
-            if transfer.local_path is None:
+            path_calculated = transfer.local_path is None
+            if path_calculated:
                 download_path, file_path = self._shares_manager.calculate_download_path(transfer.remote_path)
                 transfer.local_path = os.path.join(download_path, file_path)
 
-            path, _ = os.path.split(transfer.local_path)
-            await self._shares_manager.create_directory(path)
+            try:
+                path, _ = os.path.split(transfer.local_path)
+                await self._shares_manager.create_directory(path)
 
-            async with aiofiles.open(transfer.local_path, mode='ab'):
-                pass
+                async with aiofiles.open(transfer.local_path, mode='ab'):
+                    pass
+
+            except BaseException:
+                # Failed or cancelled (paused, aborted) before the file exists:
+                # the path calculated above is not reserved, another download
+                # can be given it. Forget it, otherwise this transfer would
+                # start writing to that path when it is queued again
+                if path_calculated and not os.path.exists(transfer.local_path):
+                    transfer.local_path = None
+                raise
 
     async def _calculate_offset(self, transfer: Transfer) -> int:
         """Calculates the offset when downloading a file by inspecting the file
